@@ -1130,3 +1130,47 @@ rust:
         assert_eq!(found_macros[0].kind(), super::LogRefKind::String);
     }
 }
+
+/// Verification hook (only built with `--cfg breadlog_verif`): dumps the pest
+/// pair tree of `Rule::file` for the given text as an S-expression
+/// `(rule start end child...)`, or `None` when the parse fails.
+#[cfg(breadlog_verif)]
+pub fn verif_pair_tree(code: &str) -> Option<String>
+{
+    fn dump(pair: pest::iterators::Pair<Rule>, out: &mut String)
+    {
+        let span = pair.as_span();
+        out.push_str(&format!(
+            "({:?} {} {}",
+            pair.as_rule(),
+            span.start(),
+            span.end()
+        ));
+        for inner in pair.into_inner()
+        {
+            out.push(' ');
+            dump(inner, out);
+        }
+        out.push(')');
+    }
+
+    match RustParser::parse(Rule::file, code)
+    {
+        Err(_) => None,
+        Ok(pairs) =>
+        {
+            let mut out = String::new();
+            let mut first = true;
+            for pair in pairs
+            {
+                if !first
+                {
+                    out.push(' ');
+                }
+                first = false;
+                dump(pair, &mut out);
+            }
+            Some(out)
+        },
+    }
+}
